@@ -99,14 +99,26 @@ def make_mt(sh):
     return model.MT(3, toks, root)
 
 
-def check_tree(mtj, order=None):
+def check_tree(mtj, order=None, pre=None):
+    """pre: None | 'punctuation_root' (every second token is a comma and punctuation_root runs first; the
+    rule is then applied to the tree as its child lists describe it)."""
     mt = model.MT.from_json(mtj)
-    case = {'mt': mtj, 'order': order}
+    case = {'mt': mtj, 'order': order, 'pre': pre}
     out = []
+    try:
+        if pre:
+            mt = model.MT(mt.sid, [dict(tk, word=',' if i % 2 else tk['word']) for i, tk in enumerate(mt.toks)], mt.root)
+        t = build_via_export(mt, scratch()) if order == 'export' else build(mt, child_order=order)
+        if pre:
+            t = transform.punctuation_root(t)
+            mt = extract(t)
+    except Exception as e:
+        return [{'kind': 'exception', 'where': 'punctuation_root', 'case': case,
+                 'detail': '%s: %s on %s' % (type(e).__name__, e, model.mt_str(mt.root)),
+                 'what': 'punctuation_root raised on a well-formed tree'}], 0
     exp_root, moves = ref_root_attach(mt)
     exp = model.MT(mt.sid, mt.toks, exp_root)
     try:
-        t = build_via_export(mt, scratch()) if order == 'export' else build(mt, child_order=order)
         before = {id(x): x.parent for x in all_nodes(t)}
         r = transform.root_attach(t)
     except Exception as e:
@@ -175,7 +187,7 @@ def check_tree(mtj, order=None):
 
 def check_case(case):
     with quiet():
-        return check_tree(case['mt'], case.get('order'))[0]
+        return check_tree(case['mt'], case.get('order'), case.get('pre'))[0]
 
 
 def run_chunk(chunk):
@@ -189,6 +201,13 @@ def run_chunk(chunk):
                 if moves:
                     res.nontrivial += 1
                 res.outcome((model.shape_str(sh), order, moves, len(vs)))
+                for v in vs:
+                    res.violation(v['kind'], v['where'], v['case'], v['detail'], v['what'])
+            if len(model.leaves(sh)) >= 3:
+                vs, moves2 = check_tree(mt.to_json(), None, 'punctuation_root')
+                res.evals += 1
+                res.nontrivial += 1 if moves2 else 0
+                res.outcome((model.shape_str(sh), 'punctuation_root', moves2, len(vs)))
                 for v in vs:
                     res.violation(v['kind'], v['where'], v['case'], v['detail'], v['what'])
             if moves:
